@@ -31,7 +31,7 @@ pub const REQ_TYPES: &[&str] = &[
 pub const TAGS: &[&str] = &["t1", "t2", "t3"];
 pub const REDIRECT_NAMES: &[&str] = &[
     "noop.js", "noopjs", "1x1.gif", "1x1-transparent.gif", "noop.txt", "tmpl.js", "fn.js",
-    "perm.js", "missing.js", "noop.html",
+    "perm.js", "missing.js", "noop.html", "blank.html", "extra.gif",
 ];
 pub const CSP_VALUES: &[&str] = &[
     "script-src 'none'", "script-src 'self'", "img-src 'none'", "worker-src 'none'",
@@ -1136,4 +1136,77 @@ pub fn long_url_case(t: &mut Tape) -> NetCase {
         reqs.push(ReqSpec { url: extra, source: String::new(), rtype: "xhr".into() });
     }
     NetCase { rules, tags: vec![], reqs }
+}
+
+/// Large groups of same-shaped rules (threshold sizes around 16/32/64/128/256/512) that share a
+/// bucket and an option mask, with one request per rule (or a sample of them): the place where
+/// fused regex sets, split/merged groups, capacity limits and LRU-style caches show up.
+pub fn big_group_case(t: &mut Tape) -> NetCase {
+    let sizes = [2usize, 16, 17, 33, 63, 64, 65, 66, 127, 128, 129, 130, 200, 257, 300, 513, 600, 800];
+    let n = (sizes[t.pick(sizes.len())] + t.pick(3)).max(2);
+    let kind = t.pick(5);
+    let opt = t.choose(&["", "", "script", "third-party", "image,script"]);
+    let exception = t.chance(1, 4);
+    let tag = if t.chance(1, 6) { Some(t.choose(TAGS)) } else { None };
+    let rule_for = |i: usize| -> String {
+        let body = match kind {
+            0 => format!("/adzone/unit{}x", i),
+            1 => format!("/adzone/*-unit{}x", i),
+            2 => format!("/adzone^unit{}^", i),
+            3 => format!("ad*slot{:04}", i),
+            _ => format!("/adzone/{}/*/banner^", i),
+        };
+        let mut o: Vec<String> = vec![];
+        if !opt.is_empty() {
+            o.push(opt.to_string());
+        }
+        if let Some(tg) = tag {
+            o.push(format!("tag={}", tg));
+        }
+        format!("{}{}{}{}", if exception { "@@" } else { "" }, body, if o.is_empty() { "" } else { "$" }, o.join(","))
+    };
+    let url_for = |i: usize| -> String {
+        match kind {
+            0 => format!("https://cdn.example.net/adzone/unit{}x.js", i),
+            1 => format!("https://cdn.example.net/adzone/q/r-unit{}x.png", i),
+            2 => format!("https://cdn.example.net/adzone/unit{}/a.js", i),
+            3 => format!("https://cdn.example.net/p/adv-slot{:04}.js", i),
+            _ => format!("https://cdn.example.net/adzone/{}/x/banner?q", i),
+        }
+    };
+    let mut rules: Vec<String> = (0..n).map(rule_for).collect();
+    if exception {
+        rules.push("||cdn.example.net^".to_string());
+    }
+    for _ in 0..t.pick(4) {
+        rules.push(t.choose(&["/other/path", "||unrelated.org^", "@@/never/matches$image", "/adzone/zzz*qq$important"]).to_string());
+    }
+    if t.chance(1, 3) {
+        // insertion order must not matter
+        let k = t.pick(rules.len());
+        rules.rotate_left(k);
+    }
+    let mut idx: Vec<usize> = vec![0, n - 1, n.saturating_sub(2), n / 2];
+    for m in [15usize, 16, 31, 32, 63, 64, 127, 128, 255, 256, 511, 512] {
+        if m < n {
+            idx.push(m);
+        }
+    }
+    if n <= 300 || t.chance(1, 3) {
+        idx = (0..n).collect();
+    } else {
+        for _ in 0..20 {
+            idx.push(t.pick(n));
+        }
+    }
+    idx.sort();
+    idx.dedup();
+    let ty = if opt.contains("image") && !opt.contains("script") { "image" } else { "script" };
+    let mut reqs: Vec<ReqSpec> = idx.iter().map(|&i| ReqSpec { url: url_for(i), source: "https://news.example.org/".into(), rtype: ty.into() }).collect();
+    reqs.push(ReqSpec { url: url_for(n + 7), source: "https://news.example.org/".into(), rtype: ty.into() });
+    let tags = match tag {
+        Some(tg) if t.chance(3, 4) => vec![tg.to_string()],
+        _ => vec![],
+    };
+    NetCase { rules, tags, reqs }
 }
